@@ -29,6 +29,8 @@ def signature(events, at):
     first = json.loads(events[0])
     main, pers = first.get("main"), first.get("personal")
     failing = pers if main in ("ok", "empty") else main
+    if ev.get("op") == "clipath":
+        return "C15|command-line|layout=%s|database-flag=%s|%s" % (ev.get("layout"), ev.get("dbflag"), "main" if not ev.get("found") else "notebook")
     parts = ["C15", str(ev.get("op"))]
     if ev.get("op") in ("attempt", "delay"):
         parts.append("fault=%s" % failing)
@@ -102,6 +104,12 @@ def run(ctx):
             f.write(json.dumps(s) + "\n")
     tr = os.path.join(ctx.work, "loader.ndjson")
     i = ctx.run_vh(["loader-run", "-in", sf, "-out", tr], timeout=1500)
+    # the command line: configured path absent, a documented fall-back location holds the database
+    ctx.wtf()
+    tr_cli = os.path.join(ctx.work, "loader-cli.ndjson")
+    icli = ctx.run_vh(["loader-cli", "-out", tr_cli], timeout=600)
+    with open(tr, "a") as f:
+        f.write(open(tr_cli).read())
     ok, rej = ctx.validate_traces(tr, "TraceLoader", TRACE_CFG)
     for x in rej:
         evs, at = x["trace"], x["at"]
